@@ -271,6 +271,17 @@ impl AbstractTree for BlobTree {
 
     fn clear(&self) -> crate::Result<()> {
         let config = self.tree_config();
+
+        // IMPORTANT: Write lock so no compaction is running, otherwise it would
+        // try to install its result into a version that does not contain its input tables anymore
+        #[expect(clippy::expect_used, reason = "lock is expected to not be poisoned")]
+        let _lock = self
+            .index
+            .0
+            .major_compaction_lock
+            .write()
+            .expect("lock is poisoned");
+
         let mut versions = self.get_version_history_lock();
 
         let old_version = versions.latest_version().version;
